@@ -656,7 +656,10 @@ func costSitesTyped(p *pkgFiles, info *types.Info) []string {
 		return nil
 	}
 	var scan func(fn string, n ast.Node, depth int, follow bool)
-	site := func(fn string, m ast.Node, follow bool) {
+	var scanTop func(fn string, n ast.Node)
+	visiting := map[string]bool{}
+	var site func(fn string, m ast.Node, follow bool)
+	site = func(fn string, m ast.Node, follow bool) {
 		switch x := m.(type) {
 		case *ast.AssignStmt:
 			if x.Tok == token.ADD_ASSIGN && isStringType(typeOf(x.Lhs[0])) {
@@ -695,8 +698,14 @@ func costSitesTyped(p *pkgFiles, info *types.Info) []string {
 				}
 				if fo != nil {
 					k, disp := funcKey(fo)
-					if fd := decls[k]; fd != nil {
-						scan(disp, fd.Body, 1, false) // the callee's own top level now runs once per iteration of the caller's loop
+					_ = disp
+					if fd := decls[k]; fd != nil && !visiting[k] && len(visiting) < 4 {
+						// the callee's own top level now runs once per iteration of the caller's loop: its sites are
+						// attributed to the function whose loop it is (so extracting a helper changes nothing);
+						// sites inside the callee's own loops are attributed to the callee by its own scan
+						visiting[k] = true
+						scanTop(fn, fd.Body)
+						delete(visiting, k)
 					}
 				}
 			}
@@ -720,6 +729,19 @@ func costSitesTyped(p *pkgFiles, info *types.Info) []string {
 			}
 			if depth > 0 && m != nil {
 				site(fn, m, follow)
+			}
+			return true
+		})
+	}
+	// the top level (outside its own loops) of a function that is called from inside a loop of `fn`
+	scanTop = func(fn string, n ast.Node) {
+		ast.Inspect(n, func(m ast.Node) bool {
+			switch m.(type) {
+			case *ast.ForStmt, *ast.RangeStmt:
+				return false
+			}
+			if m != nil {
+				site(fn, m, true)
 			}
 			return true
 		})
